@@ -128,3 +128,40 @@ func VerifAtomicGetOrCreateDelete() {
 	zzverif.Assert(got.Load() == 2, "no_lost_update")
 	zzverif.Cover("atomic_getorcreate_with_delete_done")
 }
+
+// One counter under three concurrent operations: Store(s), Add(d) and Load. Every result is that of one of the
+// sequential orders: the final value is s+d (Store first) or s (Add first), Add's result is init+d or s+d accordingly,
+// and Load sees one of the values the counter passes through in that order; no data race.
+//
+//verif:harness prop=C14 name=atomic_value_store_add_load threads=4 sched=delay preempt=3 t_preempt=4 unwind=10 race=violation witness=lenient
+func VerifAtomicValueStoreAddLoad() {
+	am := NewAtomic[int, int64]()
+	init, s, d := zzverif.Int64("create"), zzverif.Int64("stored"), zzverif.Int64("delta")
+	v := am.GetOrCreate(1, init)
+	var added, loaded int64
+	done := make(chan struct{}, 3)
+	go func() {
+		v.Store(s)
+		done <- struct{}{}
+	}()
+	go func() {
+		added = v.Add(d)
+		done <- struct{}{}
+	}()
+	go func() {
+		loaded = v.Load()
+		done <- struct{}{}
+	}()
+	<-done
+	<-done
+	<-done
+	final := v.Load()
+	storeFirst := zzverif.And(final == s+d, added == s+d)
+	addFirst := zzverif.And(final == s, added == init+d)
+	zzverif.Assert(zzverif.Or(storeFirst, addFirst), "store_and_add_linearizable")
+	// Load returns a value the counter had: init, or one of the two intermediate / final values of the order taken
+	okStoreFirst := zzverif.And(storeFirst, zzverif.Or(loaded == init, zzverif.Or(loaded == s, loaded == s+d)))
+	okAddFirst := zzverif.And(addFirst, zzverif.Or(loaded == init, zzverif.Or(loaded == init+d, loaded == s)))
+	zzverif.Assert(zzverif.Or(okStoreFirst, okAddFirst), "load_sees_a_value_the_counter_had")
+	zzverif.Cover("atomic_value_store_add_load_done")
+}
